@@ -48,6 +48,7 @@ struct Sub {            // one execute() call
   int rc = 0;
   int consumed = 0;
   uint64_t epoch_at_signal = 0; bool window = false;
+  uint64_t ticket = ~0ULL;  // queue index taken by the push (from a watch on _next_push_index)
 };
 
 struct State {
@@ -172,6 +173,13 @@ void on_events(void*, const void*, uint64_t oldv, uint64_t newv) {
   }
 }
 
+// watch on the queue's push index: remember which ticket each execute() took
+void on_ticket(void*, const void*, uint64_t oldv, uint64_t newv) {
+  int me = tid();
+  if (newv != oldv + 1) return;
+  for (Sub* s : S->subs) if (!s->done && s->ret_tid == -2 - me && s->ticket == ~0ULL) s->ticket = oldv;
+}
+
 void note_rc(int rc, const char* what) {
   int me = tid();
   bool attempted = me >= 0 && me < 64 && S->att_in_call[me] > 0;
@@ -232,20 +240,15 @@ void do_join() {
   if (!applies) { probe("join_clause_not_applicable"); return; }
   for (Sub* s : covered)
     if (s->consumed != 1) {
-      // Classify: is the unconsumed item queued behind a ticket whose producer
-      // has not published yet (head-of-line: the consumer's empty poll only looks
-      // at the head slot)? That case gets its own site.
-      // (raw reads: no scheduling point may separate join()'s last look at the
-      // event counter from this classification)
-      auto& bq = S->q._queue;
-      size_t head = *(volatile size_t*)&bq._next_pop_index, tail = *(volatile size_t*)&bq._next_push_index;
-      uint16_t head_version = *(volatile uint16_t*)&bq._slots.futex(head & bq._slot_mask)._futex._value;
-      bool head_unpublished = tail > head + 1 && head_version != bq.pop_version_for_index(head);
-      bool inflight = false;
-      for (Sub* o : S->subs) if (!o->done) inflight = true;
-      if (head_unpublished && inflight)
-        fail("lost", "join-head-of-line", "join() returned (event counter 0) but item %llu of producer %d, whose execute() had returned before join() was called, was not consumed: it is queued behind ticket %zu whose producer has not published yet (tickets up to %zu handed out), so the consumer's empty poll of the head slot let it exit",
-             (unsigned long long)(s->v & 0xffffffffULL), s->producer, head, tail);
+      // Classify: is the unconsumed item queued behind the ticket of an execute()
+      // that is still in flight (head-of-line: the consumer's empty poll only
+      // looks at the head slot, so it exits although later slots are published)?
+      // That case gets its own site. No scheduling point may separate join()'s
+      // last look at the event counter from this classification: plain reads only.
+      for (Sub* o : S->subs)
+        if (!o->done && o->ticket < s->ticket)
+          fail("lost", "join-head-of-line", "join() returned (event counter 0) but item %llu of producer %d (ticket %llu), whose execute() had returned before join() was called, was not consumed: it is queued behind ticket %llu of producer %d whose execute() is still in flight, so the consumer's empty poll of the head slot let it exit",
+               (unsigned long long)(s->v & 0xffffffffULL), s->producer, (unsigned long long)s->ticket, (unsigned long long)o->ticket, o->producer);
       fail("lost", "join", "join() returned but item %llu of producer %d, whose execute() had returned before join() was called, was not consumed", (unsigned long long)(s->v & 0xffffffffULL), s->producer);
     }
   probe(covered.empty() ? "join_nothing_covered" : "join_covered_items");
@@ -295,6 +298,7 @@ void run(const Plan& p) {
   s.cap = s.q.capacity();
   for (size_t i = 0; i < s.cap; i++) sim::hb_register(&s.q._queue._slots.value(i), sizeof(Item), "execq-slot");
   sim::watch(&s.q._events, sizeof(s.q._events), on_events, nullptr);
+  sim::watch(&s.q._queue._next_push_index, sizeof(size_t), on_ticket, nullptr);
 
   for (size_t t = 1; t < p.threads.size(); t++) if (!p.threads[t].empty()) s.producers_alive++;
   std::vector<std::thread> th;
